@@ -39,7 +39,7 @@ pub fn explore(ex: &Ex) {
             ex.decode(l, "c10.wide", Ty::KeySet, Entry::Slice, &ks);
         });
         // long key sets with the invalid key first / in the middle / last
-        for n in [17usize, 40, 65, 100, 257] {
+        for n in [9usize, 17, 33, 65, 100, 257] {
             let mut l = crate::mc::Local::default();
             let good = gen::map(vec![(u(1), u(1)), (i(-1), u(6))]);
             for bad_at in [None, Some(0), Some(n / 2), Some(n - 1)] {
